@@ -2,7 +2,7 @@
 
 use crate::common::*;
 use crate::compile::compile_group;
-use crate::gen::{generate, Prop};
+use crate::gen::Prop;
 use crate::node::NodeWorker;
 use crate::rng::{fnv, mix};
 use crate::shrink;
@@ -90,6 +90,21 @@ pub fn interpret(prop: &str, resp: Result<Value, String>) -> RunResult {
         }
     }
     let log_hash = resp["logHash"].as_str().unwrap_or("").to_string();
+    stats.add_to_set("event_logs", fnv(log_hash.as_bytes()));
+    if let Some(a) = resp["uShapes"].as_array() {
+        for x in a {
+            if let Some(s) = x.as_str() {
+                stats.add_to_set("update_path_tree_shapes", fnv(s.as_bytes()));
+            }
+        }
+    }
+    if let Some(a) = resp["treeShapes"].as_array() {
+        for x in a {
+            if let Some(s) = x.as_str() {
+                stats.add_to_set("node_tree_shapes", fnv(s.as_bytes()));
+            }
+        }
+    }
     let step = resp["steps"].as_u64().unwrap_or(0);
     let outcome = if resp["violation"].is_object() {
         let vp = resp["violation"]["property"].as_str().unwrap_or("");
@@ -153,9 +168,14 @@ pub static T_GEN: std::sync::atomic::AtomicU64 = std::sync::atomic::AtomicU64::n
 pub static T_BUILD: std::sync::atomic::AtomicU64 = std::sync::atomic::AtomicU64::new(0);
 pub static T_CALL: std::sync::atomic::AtomicU64 = std::sync::atomic::AtomicU64::new(0);
 
-pub fn one_run(seed: u64, prop: Prop, i: u64) -> OneRun {
+/// every third run of the thorough tier is a deep one (larger template, 12-36 ops)
+pub fn world_for_run(seed: u64, prop: Prop, i: u64, thorough: bool) -> World {
+    crate::gen::generate_with(seed_of(seed, prop, i), prop, thorough && i % 3 == 0)
+}
+
+pub fn one_run(seed: u64, prop: Prop, i: u64, thorough: bool) -> OneRun {
     let t = Instant::now();
-    let w = generate(seed_of(seed, prop, i), prop);
+    let w = world_for_run(seed, prop, i, thorough);
     let ew = world_to_json(&w);
     T_GEN.fetch_add(t.elapsed().as_micros() as u64, std::sync::atomic::Ordering::Relaxed);
     let mut r = run_explicit(prop_name(prop), &ew, false);
@@ -213,11 +233,12 @@ pub fn check(args: &Args, prop: Prop) -> i32 {
     let pname = prop_name(prop);
     let thorough = args.tier == "thorough";
     let n = args.runs.unwrap_or(match (prop, thorough) {
-        (_, true) => 400_000,
+        (Prop::C06, true) => 1_200_000,
+        (_, true) => 1_000_000,
         (_, false) => 12_000,
     });
     let seed = args.seed;
-    let outs = parallel_map(n, args.workers, move |i| one_run(seed, prop, i));
+    let outs = parallel_map(n, args.workers, move |i| one_run(seed, prop, i, thorough));
     let mut stats = Stats::default();
     let mut violations: Vec<(u64, Violation)> = vec![];
     let mut executable = 0u64;
@@ -252,7 +273,7 @@ pub fn check(args: &Args, prop: Prop) -> i32 {
             break;
         }
         shrunk += 1;
-        let w = generate(seed_of(seed, prop, *run), prop);
+        let w = world_for_run(seed, prop, *run, thorough);
         let (w2, v2, tried, locus) = shrink::shrink_world(pname, &w, &v.class, 500);
         let tags = world_tags(&w2);
         if let Some(k) = shrink::match_known(&known, pname, &v2.class, &tags, &locus) {
@@ -318,7 +339,7 @@ pub fn check(args: &Args, prop: Prop) -> i32 {
     }
     let mut samples = vec![];
     for i in 0..3u64.min(n) {
-        let w = generate(seed_of(seed, prop, i), prop);
+        let w = world_for_run(seed, prop, i, thorough);
         samples.push(json!({"run": i, "sources": w.sources().iter().filter(|(p, _)| !p.starts_with("comp/")).map(|(p, s)| json!([p, s])).collect::<Vec<_>>(), "data": w.data, "config": w.config_json(), "schedule": w.schedule}));
     }
     let evaluations = n;
@@ -408,7 +429,7 @@ pub fn replay(v: &Value, path: &str, quiet: bool) -> i32 {
 
 pub fn determinism_hashes(seed: u64, prop: Prop, n: u64, workers: usize) -> Vec<String> {
     parallel_map(n, workers, move |i| {
-        let r = one_run(seed, prop, i);
+        let r = one_run(seed, prop, i, false);
         format!("{}|{:?}|{:?}", r.result.log_hash, r.result.stats.counters, matches!(r.result.outcome, Outcome::Violated(_)))
     })
 }
